@@ -185,8 +185,8 @@ def parse_table(text):
             else:
                 raise AnnotError("bad table line: " + line)
             items.append(cur)
-        elif line.startswith('#') and cur is None:
-            continue
+        elif line.startswith('#') and (cur is None or line == '#' or line.startswith('# ') or line.startswith('##')):
+            continue                      # table comment ("# ..."); preprocessor lines (#ifdef ...) are text
         elif cur is not None:
             cur[4].append(line)
     return [(f, k, o, w, '\n'.join(t).strip()) for f, k, o, w, t in items]
@@ -218,7 +218,12 @@ def annotate(src, table_text):
         applied.append("%s loop %d %s" % (fn, ordn, where))
     out = src
     for pos, text in sorted(inserts, key=lambda t: -t[0]):
-        out = out[:pos] + OPEN + " " + text + " " + CLOSE + out[pos:]
+        if re.search(r'^\s*#', text, re.M):
+            # inserted text holds preprocessor lines: keep them on lines of their own (the newlines are
+            # inside the markers, so strip() still restores the original bytes)
+            out = out[:pos] + OPEN + "\n" + text + "\n" + CLOSE + out[pos:]
+        else:
+            out = out[:pos] + OPEN + " " + text + " " + CLOSE + out[pos:]
     return out, applied
 
 
